@@ -24,6 +24,9 @@
 //	          route of setting it) is what Get returns and what Listen/Dial then use
 //	subs      SUBSCRIBE/UNSUBSCRIBE scripts over nested topics on the SUB socket and its contexts:
 //	          each receiver delivers exactly what its own set of accepted subscriptions matches
+//	maxrecv   MAX-RCV-SIZE sequences set on the socket / the endpoint before and after the endpoint was
+//	          started: every connection made after an accepted Set delivers what is under the limit and
+//	          drops what is over it
 package c19
 
 import (
@@ -159,6 +162,9 @@ func caseList(r *mon.Runner) []mon.CaseSpec {
 	for _, s := range subsPlans(r, rnd) {
 		add(s)
 	}
+	for _, s := range maxrecvPlans(r, rnd) {
+		add(s)
+	}
 	return cases
 }
 
@@ -196,6 +202,8 @@ func TestC19(t *testing.T) {
 			runTLSCfg(c, sp)
 		case "subs":
 			runSubs(c, sp)
+		case "maxrecv":
+			runMaxRecv(c, sp)
 		default:
 			panic("unknown case kind " + sp.Kind)
 		}
